@@ -10,6 +10,7 @@ import (
 	"path"
 	"sort"
 	"strings"
+	"sync"
 	"time"
 
 	"perkeep.org/pkg/blobserver/files"
@@ -17,6 +18,7 @@ import (
 
 // memVFS is a recording in-memory files.VFS over a Image.
 type MemVFS struct {
+	mu  sync.Mutex // files spawns read-ahead goroutines that outlive an enumerate call
 	Im  *Image
 	log *Log // nil = not recording
 	// Fail, if set, may fail an operation before it acts.
@@ -61,6 +63,8 @@ func (i memInfo) IsDir() bool        { return i.dir }
 func (i memInfo) Sys() any           { return nil }
 
 func (v *MemVFS) Remove(p string) error {
+	v.mu.Lock()
+	defer v.mu.Unlock()
 	if err := v.failing("remove", p); err != nil {
 		return err
 	}
@@ -73,6 +77,8 @@ func (v *MemVFS) Remove(p string) error {
 }
 
 func (v *MemVFS) RemoveDir(p string) error {
+	v.mu.Lock()
+	defer v.mu.Unlock()
 	if !v.Im.Dirs[p] {
 		return &os.PathError{Op: "rmdir", Path: p, Err: os.ErrNotExist}
 	}
@@ -98,6 +104,8 @@ func (v *MemVFS) RemoveDir(p string) error {
 func (v *MemVFS) Stat(p string) (os.FileInfo, error) { return v.Lstat(p) }
 
 func (v *MemVFS) Lstat(p string) (os.FileInfo, error) {
+	v.mu.Lock()
+	defer v.mu.Unlock()
 	if err := v.failing("stat", p); err != nil {
 		return nil, err
 	}
@@ -115,6 +123,8 @@ type memReader struct{ *bytes.Reader }
 func (memReader) Close() error { return nil }
 
 func (v *MemVFS) Open(p string) (files.ReadableFile, error) {
+	v.mu.Lock()
+	defer v.mu.Unlock()
 	if err := v.failing("open", p); err != nil {
 		return nil, err
 	}
@@ -126,6 +136,8 @@ func (v *MemVFS) Open(p string) (files.ReadableFile, error) {
 }
 
 func (v *MemVFS) MkdirAll(p string, perm os.FileMode) error {
+	v.mu.Lock()
+	defer v.mu.Unlock()
 	if err := v.failing("mkdir", p); err != nil {
 		return err
 	}
@@ -149,6 +161,8 @@ func (v *MemVFS) MkdirAll(p string, perm os.FileMode) error {
 }
 
 func (v *MemVFS) Rename(oldname, newname string) error {
+	v.mu.Lock()
+	defer v.mu.Unlock()
 	if err := v.failing("rename", oldname); err != nil {
 		return err
 	}
@@ -169,6 +183,8 @@ type memWriter struct {
 
 func (w *memWriter) Name() string { return w.name }
 func (w *memWriter) Write(p []byte) (int, error) {
+	w.v.mu.Lock()
+	defer w.v.mu.Unlock()
 	if err := w.v.failing("write", w.name); err != nil {
 		return 0, err
 	}
@@ -178,6 +194,8 @@ func (w *memWriter) Write(p []byte) (int, error) {
 	return len(p), nil
 }
 func (w *memWriter) Sync() error {
+	w.v.mu.Lock()
+	defer w.v.mu.Unlock()
 	if err := w.v.failing("sync", w.name); err != nil {
 		return err
 	}
@@ -187,6 +205,8 @@ func (w *memWriter) Sync() error {
 func (w *memWriter) Close() error { return w.v.failing("close", w.name) }
 
 func (v *MemVFS) TempFile(dir, prefix string) (files.WritableFile, error) {
+	v.mu.Lock()
+	defer v.mu.Unlock()
 	if !v.Im.Dirs[dir] {
 		return nil, &os.PathError{Op: "open", Path: dir, Err: os.ErrNotExist}
 	}
@@ -201,6 +221,8 @@ func (v *MemVFS) TempFile(dir, prefix string) (files.WritableFile, error) {
 }
 
 func (v *MemVFS) ReadDirNames(dir string) ([]string, error) {
+	v.mu.Lock()
+	defer v.mu.Unlock()
 	if err := v.failing("readdir", dir); err != nil {
 		return nil, err
 	}
